@@ -112,6 +112,7 @@ HllArray<A>* HllArray<A>::newHll(const void* bytes, size_t len, const A& allocat
   const bool startFullSizeFlag = ((data[hll_constants::FLAGS_BYTE] & hll_constants::FULL_SIZE_FLAG_MASK) ? true : false);
 
   const uint8_t lgK = data[hll_constants::LG_K_BYTE];
+  HllUtil<A>::checkLgK(lgK);
   const uint8_t curMin = data[hll_constants::HLL_CUR_MIN_BYTE];
 
   const uint32_t arrayBytes = hllArrBytes(tgtHllType, lgK);
@@ -182,6 +183,7 @@ HllArray<A>* HllArray<A>::newHll(std::istream& is, const A& allocator) {
   const bool startFullSizeFlag = ((listHeader[hll_constants::FLAGS_BYTE] & hll_constants::FULL_SIZE_FLAG_MASK) ? true : false);
 
   const uint8_t lgK = listHeader[hll_constants::LG_K_BYTE];
+  HllUtil<A>::checkLgK(lgK);
   const uint8_t curMin = listHeader[hll_constants::HLL_CUR_MIN_BYTE];
 
   HllArray* sketch = HllSketchImplFactory<A>::newHll(lgK, tgtHllType, startFullSizeFlag, allocator);
